@@ -77,8 +77,26 @@ func (s *Translator) translateNodePatternToStep(nodePattern *cypher.NodePattern,
 	if currentQueryPart.HasProperties() {
 		if propertyConstraints, err := s.buildPatternPropertyConstraints(bindingResult.Binding, currentQueryPart.ConsumeProperties()); err != nil {
 			return err
-		} else if err := s.treeTranslator.AddTranslationConstraint(pgsql.AsIdentifierSet(bindingResult.Binding.Identifier), propertyConstraints); err != nil {
-			return err
+		} else {
+			// A property value may read other bindings, e.g. (m {name: n.name}): the constraint depends on them too
+			dependencies := pgsql.AsIdentifierSet(bindingResult.Binding.Identifier)
+
+			if propertyConstraints != nil {
+				if valueDependencies, err := ExtractSyntaxNodeReferences(propertyConstraints); err != nil {
+					return err
+				} else {
+					// Only bindings count: an expression may also name columns and aliases of its own sub-selects
+					for _, valueDependency := range valueDependencies.Slice() {
+						if _, isBound := s.scope.Lookup(valueDependency); isBound {
+							dependencies.Add(valueDependency)
+						}
+					}
+				}
+			}
+
+			if err := s.treeTranslator.AddTranslationConstraint(dependencies, propertyConstraints); err != nil {
+				return err
+			}
 		}
 	}
 
